@@ -235,7 +235,7 @@ double FutureEvtSet__next_date(struct FutureEvtSet* self) __CPROVER_requires(sel
 struct Event* FutureEvtSet__pop_leq(struct FutureEvtSet* self, double date, double* value, struct Resource** resource)
     __CPROVER_requires(self == &future_evt_set && __CPROVER_w_ok(value, sizeof(double)) &&
                        __CPROVER_w_ok(resource, sizeof(struct Resource*)))
-    __CPROVER_assigns(*value, *resource, g_pending, g_pop_date)
+    __CPROVER_assigns(*value, VF_PT(*resource) /* pointer target: HOWTO, dfcc pointer havoc */, g_pending, g_pop_date)
     __CPROVER_ensures(__CPROVER_return_value == NULL || __CPROVER_return_value == &g_ev)
     __CPROVER_ensures((__CPROVER_return_value == NULL) == (__CPROVER_old(g_pending) == 0))
     __CPROVER_ensures(__CPROVER_return_value == NULL ? g_pending == __CPROVER_old(g_pending)
